@@ -8,11 +8,13 @@ Variable H : string -> string.
 Variable enc : list json -> string.
 Variable parse_index : string -> option nat.
 Variable parse_usize : string -> option nat.
+Variable pos : string -> nat.
+Notation add_sd := (T1a.add_sd pos).
 Notation blind := (blind H enc).
 Notation dig_mem := (dig_mem H enc).
 Notation wf := (wf H enc).
 Notation mem_ok := (mem_ok H enc).
-Notation mark := (mark H enc parse_index parse_usize).
+Notation mark := (mark H enc parse_index parse_usize pos).
 
 Lemma sd_of_app a b : sd_of (a ++ b) = (sd_of a ++ sd_of b)%list.
 Proof. unfold sd_of. apply flat_map_app. Qed.
@@ -53,7 +55,8 @@ Proof.
   - inversion Hn as [|? ? Hn1 Hn2]; subst. unfold sd_names_ok in Hn1. cbn in Hn1.
     destruct (String.compare "_sd" n) eqn:Ec.
     + apply String.compare_eq_iff in Ec. subst n. destruct mk as [| |l]; try (exfalso; apply Hn1; reflexivity).
-      unfold sd_of in *. cbn in *. rewrite !in_app_iff in *. destruct Hx as [[Hx|Hx] | ->]; auto. left. right. left. reflexivity.
+      unfold sd_of in *. cbn [flat_map fst snd] in *. rewrite !in_app_iff in *. rewrite in_insert_at.
+      destruct Hx as [[Hx|Hx] | ->]; auto.
     + unfold sd_of in *. cbn in *. destruct Hx as [Hx | ->]; [right; assumption|left; reflexivity].
     + unfold sd_of in *. cbn [flat_map] in *. rewrite in_app_iff in *. destruct Hx as [[Hx|Hx] | ->].
       * left. assumption.
@@ -73,7 +76,7 @@ Qed.
 
 (* members of add_sd: either old members (with the _sd list extended) or the new _sd member *)
 Lemma add_sd_members g : forall mems m, In m (add_sd g mems) ->
-  In m mems \/ (exists l, m = ("_sd", (MSd l, ALeaf JNull))) \/ (exists l s, In ("_sd", (MSd l, s)) mems /\ m = ("_sd", (MSd (l ++ [g]), s))) \/
+  In m mems \/ (exists l, m = ("_sd", (MSd l, ALeaf JNull))) \/ (exists l s, In ("_sd", (MSd l, s)) mems /\ m = ("_sd", (MSd (insert_at (pos g) g l), s))) \/
   (exists mk s, In ("_sd", (mk, s)) mems /\ m = ("_sd", (mk, s))).
 Proof.
   induction mems as [|[n [mk s]] r IH]; intros m Hm; cbn [add_sd] in Hm.
@@ -119,7 +122,7 @@ Proof.
       apply upd_mem_inv in Eu as (pre & x & post & x' & Hsplit & -> & Hf & Hni).
       destruct x as [[| |] s]; try discriminate. injection Hf as <-.
       rewrite Hsplit, find_mid in Hm by assumption. injection Hm as <-.
-      pose proof (wf_obj_names H enc parse_index parse_usize _ Hw) as Hn0.
+      pose proof (wf_obj_names H enc parse_index parse_usize pos _ Hw) as Hn0.
       inversion Hw as [| | ? Hs Hall Hok]; subst mems0.
       set (mems' := (pre ++ (key, (MHid salt, s)) :: post)%list).
       set (g := dig_mem salt key s).
